@@ -25,7 +25,7 @@ def cases(tier, seed):
     rng = np.random.default_rng([seed, 1616])
     n = 170 if tier == "quick" else 2500
     for i in range(n):
-        yield {"mesh": gen.random_mesh(rng, 150 if tier == "quick" else 1200, families=["voronoi", "delaunay", "merged", "polyhedron", "cubed_sphere", "latlon_patch"]),
+        yield {"mesh": gen.random_mesh(rng, 150 if tier == "quick" else 1200, families=["voronoi", "delaunay", "merged", "polyhedron", "cubed_sphere", "latlon_patch", "latlon_global", "clustered"]),
                "dseed": int(rng.integers(0, 10**6)), "lead": [int(x) for x in rng.integers(1, 4, size=int(rng.integers(0, 3)))],
                "source": str(rng.choice(["topology", "topology", "mpas_supplied", "mpas_plain"]))}
 
@@ -58,6 +58,7 @@ def run_case(ctx, case):
         ctx.check("no_exception", False, dict(sig0, stage="distances", exc=core.exc_sig(e)), {"exc": repr(e), "mesh": d})
         return
     ctx.check("no_exception", True)
+    en0, ef0, end0, efd0 = en.copy(), ef.copy(), end.copy(), efd.copy()
     n_edge = len(en)
     nodeP = ux.grid_node_xyz(g)
     faceP = ref.lonlat_to_xyz(np.asarray(g.face_lon.values, float), np.asarray(g.face_lat.values, float))
@@ -130,6 +131,15 @@ def run_case(ctx, case):
                     ctx.check("dims_grid", ok_meta(rn), dict(sig, op="gradient_normalized"), {"dims": list(rn.dims)})
         except Exception as e:
             ctx.check("no_exception", False, dict(sig, stage="gradient", exc=core.exc_sig(e)), {"exc": repr(e), "mesh": d})
+    # the operators above only read the grid: its tables and distances must report the same values afterwards
+    try:
+        again = (np.asarray(g.edge_node_connectivity.values), np.asarray(g.edge_face_connectivity.values),
+                 np.asarray(g.edge_node_distances.values, dtype=float), np.asarray(g.edge_face_distances.values, dtype=float))
+        for nm, a0, a1 in zip(("edge_node_connectivity", "edge_face_connectivity", "edge_node_distances", "edge_face_distances"), (en0, ef0, end0, efd0), again):
+            ctx.check("grid_unchanged_by_operators", a0.shape == a1.shape and np.array_equal(a0, a1), dict(sig0, table=nm),
+                      {"first_diff": int(np.argwhere(np.ravel(a0 != a1))[0][0]) if a0.shape == a1.shape and np.any(a0 != a1) else None, "mesh": d})
+    except Exception as e:
+        ctx.check("no_exception", False, dict(sig0, stage="reobserve", exc=core.exc_sig(e)), {"exc": repr(e), "mesh": d})
     if (~interior).any() or m.n_face != m.n_node or lead:
         ctx.mark_nontrivial()
     ctx.observe("meshes")
